@@ -251,7 +251,7 @@ func runC07(c *kit.Ctx) {
 	}
 
 	// ---- R4 ---------------------------------------------------------------
-	c.StartRule("R4", "success flag bookkeeping across retry rounds", 4)
+	c.StartRule("R4", "success flag bookkeeping across retry rounds; a call that fails without being retried is remembered", 7)
 	successFlag(c, sb, batchParam)
 
 	// ---- R1 ---------------------------------------------------------------
@@ -623,6 +623,7 @@ func successFlag(c *kit.Ctx, sb *ssa.Function, batchParam *ssa.Parameter) {
 		"the flag that remembers a non-retryable error is (re)declared inside the retry loop: a fatal error of an earlier round is forgotten and SendBatch reports success although a result carries an error")
 	// every store to sticky preserves true
 	okStores, ns := true, 0
+	var stickyStores []*ssa.Store
 	var visit2 func(f *ssa.Function, addr ssa.Value)
 	visit2 = func(f *ssa.Function, addr ssa.Value) {
 		kit.Instrs(f, func(in ssa.Instruction) {
@@ -632,6 +633,7 @@ func successFlag(c *kit.Ctx, sb *ssa.Function, batchParam *ssa.Parameter) {
 					return
 				}
 				ns++
+				stickyStores = append(stickyStores, s)
 				ph, ok := s.Val.(*ssa.Phi)
 				pres := false
 				if kc, isC := s.Val.(*ssa.Const); isC && kc.Value != nil && kc.Value.ExactString() == "true" {
@@ -664,6 +666,178 @@ func successFlag(c *kit.Ctx, sb *ssa.Function, batchParam *ssa.Parameter) {
 	}
 	visit2(sb, sticky)
 	c.Check(okStores && ns > 0, sb, "sticky-only-ored", sticky.Pos(), "the flag is only ever assigned flag || x", "the remembered-fatal-error flag can be cleared: it is assigned something other than itself OR-ed with the latest result")
+	failedCallsRemembered(c, sb, sticky, stickyStores)
+}
+
+// failedCallsRemembered: the wait function reports through one of its boolean results that a call failed
+// without being handed back for a retry; SendBatch ORs that result into the sticky flag. Every place in
+// the wait function that writes an error into a result slot itself (rather than storing a received
+// result, whose classification is C04/C12) must raise that result on its way to the merge - otherwise a
+// later round in which the retried calls succeed makes SendBatch report success over that error. Exempt:
+// the error of the batch context, after which SendBatch leaves its loop without resetting the flag.
+func failedCallsRemembered(c *kit.Ctx, sb *ssa.Function, sticky *ssa.Alloc, stickyStores []*ssa.Store) {
+	p := c.P
+	wfcName := kit.M("", "*client", "waitForCompletion")
+	wfc := c.Anchor("", "client", "waitForCompletion")
+	if wfc == nil {
+		return
+	}
+	// which result feeds the sticky flag
+	k := -1
+	for _, f := range kit.WithAnon(sb) {
+		for _, call := range kit.Calls(f, wfcName) {
+			cv := call.Value()
+			if cv == nil {
+				continue
+			}
+			for _, r := range kit.Referrers(cv) {
+				ex, ok := r.(*ssa.Extract)
+				if !ok {
+					continue
+				}
+				for _, st := range stickyStores {
+					vals := []ssa.Value{st.Val}
+					if ph, ok := st.Val.(*ssa.Phi); ok {
+						vals = append(vals, ph.Edges...)
+					}
+					if bo, ok := st.Val.(*ssa.BinOp); ok {
+						vals = append(vals, bo.X, bo.Y)
+					}
+					for _, v := range vals {
+						if kit.Root(v) == ssa.Value(ex) {
+							k = ex.Index
+						}
+					}
+				}
+			}
+		}
+	}
+	if k < 0 {
+		c.Unk(sb, "remembered-result", sb.Pos(), "no result of waitForCompletion flows into the flag that remembers fatal errors")
+		return
+	}
+	var ctxParam, resParam *ssa.Parameter
+	for _, pa := range wfc.Params {
+		if isCtxType(pa) && ctxParam == nil {
+			ctxParam = pa
+		}
+		if isResultSlice(p, pa.Type()) {
+			resParam = pa
+		}
+	}
+	if ctxParam == nil || resParam == nil {
+		c.Unk(wfc, "remembered-result", wfc.Pos(), "waitForCompletion no longer takes the batch context and the result slice")
+		return
+	}
+	inWeb := map[ssa.Value]bool{}
+	var grow func(v ssa.Value)
+	grow = func(v ssa.Value) {
+		if inWeb[v] {
+			return
+		}
+		inWeb[v] = true
+		if ph, ok := v.(*ssa.Phi); ok {
+			for _, e := range ph.Edges {
+				grow(e)
+			}
+		}
+	}
+	kit.Instrs(wfc, func(in ssa.Instruction) {
+		if r, ok := in.(*ssa.Return); ok && k < len(r.Results) {
+			grow(kit.Res(r, k))
+		}
+	})
+	n := 0
+	kit.Instrs(wfc, func(in ssa.Instruction) {
+		st, ok := in.(*ssa.Store)
+		if !ok {
+			return
+		}
+		fa, ok := st.Addr.(*ssa.FieldAddr)
+		if !ok || !kit.IsErrorType(st.Val.Type()) {
+			return
+		}
+		ia, ok := fa.X.(*ssa.IndexAddr)
+		if !ok || !isResultSlice(p, ia.X.Type()) || kit.Root(ia.X) != ssa.Value(resParam) {
+			return
+		}
+		n++
+		if call, ok := kit.Root(st.Val).(*ssa.Call); ok && call.Call.IsInvoke() && call.Call.Method.Name() == "Err" && kit.Root(call.Call.Value) == ssa.Value(ctxParam) {
+			c.OK(wfc, "failed-call-remembered", st.Pos(), "error of the batch context: SendBatch leaves its loop on ctx.Err() != nil before the flag is reset (checked as batch-context-ends-the-loop)")
+			return
+		}
+		// the merge this store's block runs into
+		b := st.Block()
+		var merge, pred *ssa.BasicBlock
+		for steps := 0; steps < 8 && len(b.Succs) == 1; steps++ {
+			if len(b.Succs[0].Preds) > 1 {
+				merge, pred = b.Succs[0], b
+				break
+			}
+			b = b.Succs[0]
+		}
+		good := false
+		if merge != nil {
+			for _, x := range merge.Instrs {
+				ph, ok := x.(*ssa.Phi)
+				if !ok {
+					break
+				}
+				if !inWeb[ph] {
+					continue
+				}
+				for i, q := range merge.Preds {
+					if q == pred {
+						if kc, ok := kit.Root(ph.Edges[i]).(*ssa.Const); ok && kc.Value != nil && kc.Value.ExactString() == "true" {
+							good = true
+						}
+					}
+				}
+			}
+		}
+		c.Check(good, wfc, "failed-call-remembered", st.Pos(), "the call that gets this error is not retried and result "+fmt.Sprint(k)+" (ORed into the sticky flag by SendBatch) is raised on this way",
+			"a call is given an error here without being retried and without raising the 'fatal error seen' result: when other calls of the round are retried and then succeed, SendBatch reports success although this result carries an error")
+	})
+	if n == 0 {
+		c.Unk(wfc, "failed-call-remembered", wfc.Pos(), "waitForCompletion no longer writes the context errors into the result slots")
+	}
+	// the exemption's precondition: SendBatch resets the flag only where its own context is not done
+	nReset := 0
+	defer func() {
+		if nReset == 0 {
+			c.Unk(sb, "batch-context-ends-the-loop", sb.Pos(), "the place where SendBatch resets its success flag for the next round was not found")
+		}
+	}()
+	for _, f := range kit.WithAnon(sb) {
+		kit.Instrs(f, func(in ssa.Instruction) {
+			st, ok := in.(*ssa.Store)
+			if !ok || f != sb {
+				return
+			}
+			u, ok := st.Val.(*ssa.UnOp)
+			if !ok || u.Op != token.NOT {
+				return
+			}
+			if l, ok := u.X.(*ssa.UnOp); !ok || l.Op != token.MUL || l.X != ssa.Value(sticky) {
+				return
+			}
+			nReset++
+			good := false
+			for _, fact := range kit.FactsAt(st.Block()) {
+				cmp, ok := kit.CanonCmp(fact.Cond, fact.Pol)
+				if !ok || cmp.Op != token.EQL || !kit.IsNilConst(cmp.Y) {
+					continue
+				}
+				if call, ok := kit.Root(cmp.X).(*ssa.Call); ok && call.Call.IsInvoke() && call.Call.Method.Name() == "Err" && isCtxType(call.Call.Value) {
+					if cc, isCall := kit.Root(call.Call.Value).(*ssa.Call); isCall && kit.CalleeName(cc) == hrpcCall+"Context" {
+						continue
+					}
+					good = true
+				}
+			}
+			c.Check(good, sb, "batch-context-ends-the-loop", st.Pos(), "the flag is reset only where ctx.Err() == nil", "SendBatch can go into another round (and reset its success flag) although its own context is done: the calls that were given the context error are forgotten")
+		})
+	}
 }
 
 func calleeFullName(fn *ssa.Function) string {
